@@ -17,8 +17,11 @@ def art_eq(a,b):
 
 class Agreement(PipelineBase):
     name='C07.threshold_agreement'
-    def __init__(self,nlinks=2,**kw):
-        PipelineBase.__init__(self,**kw); self.nlinks=nlinks
+    def __init__(self,nlinks=2,small=False,**kw):
+        PipelineBase.__init__(self,**kw); self.nlinks=nlinks; self.small=small
+        if small:
+            self.name='C07.threshold_agreement_%dlinks_small'%nlinks
+            self.hash_order='fixed'      # insertion order only here (order dependence is C13's subject; 3-4 entry maps under every permutation cost 10^5 paths)
         self.bounds={'links':nlinks,'threshold':'any u32','materials':'per link any subset of {a,b}, one free digest byte per entry; b recorded under sha256 by the first link and under sha256, sha512 or both by the others','products':'per link {} or {a} (a is also a material path), free digest byte',
                      'signature_validity':'link 0 valid; other links free (intact/over/made_by)','hash_map_iteration':'every permutation'}
         self.witnesses=['ok_thr2_agree','err_disagree','ok_thr1_disagree']
@@ -28,7 +31,7 @@ class Agreement(PipelineBase):
         dirs={():[]}; links=[]
         for i in range(n):
             mats={}
-            for p in ('a','b'):
+            for p in (('a',) if self.small else ('a','b')):
                 if run.pick(2,'m%d%s'%(i,p)):
                     mats[p]=[z3.BitVec('dm_%d_%s'%(i,p),8)]
                     if p=='b' and i>=1:      # the digests of b may be recorded under sha256, sha512 or both: the algorithm set is part of what must agree
@@ -36,9 +39,9 @@ class Agreement(PipelineBase):
                         if al: mats[p]={'sha512':[z3.BitVec('dm5_%d_%s'%(i,p),8)]} if al==1 else {'sha256':mats[p],'sha512':[z3.BitVec('dm5_%d_%s'%(i,p),8)]}
             prods={}
             # `a` may be both a material and a product (a file modified in place): the two tables are compared separately
-            for p in ('a',):
+            for p in (() if self.small else ('a',)):
                 if run.pick(2,'p%d%s'%(i,p)): prods[p]=[z3.BitVec('dp_%d_%s'%(i,p),8)]
-            if i==0: sd=SigD(i,i)
+            if i==0 or self.small: sd=SigD(i,i)       # small universe: every link validly signed (what varies is who dissents)
             else:
                 mb=z3.BitVec('mb_%d'%i,8); run.add(z3.ULE(mb,n))
                 sd=SigD(i,mb,z3.Bool('in_%d'%i),z3.Bool('ov_%d'%i))
